@@ -37,6 +37,8 @@ def check(run, opts):
             key = 'raises:%s:%s' % (type(run.error).__name__, stream.exc_site(run.error))
             if kf_underflow(run):
                 key = 'meek-guarded-kf-underflow-zero-division'
+            elif truncated_kf_overelects(run):
+                key = 'meek-guarded-truncated-kf-overelects'
             out.append((key,
                         '%s during %s under %s: %s' % (type(run.error).__name__, run.phase, rule, str(run.error)[:200]),
                         dict(phase=run.phase)))
@@ -102,6 +104,23 @@ def kf_underflow(run):
     if 'iterate' not in names or names[-1] != 'div':
         return False
     return any(c.state == 'elected' and c.kf is not None and c.kf._value == 0 for c in run.E.C)
+
+
+def truncated_kf_overelects(run):
+    """
+    mechanism of the known finding: parametric meek/warren under guarded arithmetic with guard digits ignores round='up', so the
+    truncated keep factor of an elected candidate leaves its tally below the quota by more than the comparison tolerance; the
+    difference pushes two hopeful candidates over the quota at once and more candidates are elected than there are seats
+    """
+    if not isinstance(run.error, AssertionError) or run.E is None or run.cfg is None or not run.snaps:
+        return False
+    if run.E.rule.name not in ('meek', 'warren') or run.cfg.kind != 'guarded' or run.cfg.guard == 0:
+        return False
+    last = run.snaps[-1]
+    elected = [c for c in last.cands.values() if c.state == 'elected']
+    if len(elected) <= run.E.nSeats:
+        return False
+    return any(c.kf is not None and c.kf < run.cfg.of_int(1) and last.quota - c.vote >= run.cfg.geps for c in elected)
 
 
 def carve_out(opts):
